@@ -1694,7 +1694,18 @@ func (m *Matcher) loopKeyW(fr *frame, l *Loop) string {
 				return m.sizeKey(fr, se.High)
 			}
 		}
-		if call, ok := stripConv(fr.ctx, l.Range).(*ast.CallExpr); ok && len(call.Args) == 0 {
+		rng := stripConv(fr.ctx, l.Range)
+		// words := this.set.ReadOnlyBits(); for _, w := range words
+		if id, ok := rng.(*ast.Ident); ok {
+			if obj := fr.ctx.Info.ObjectOf(id); obj != nil && isLocalVar(obj) {
+				if d := fr.ctx.singleDef(obj); d != nil {
+					if dc, ok := stripConv(fr.ctx, d).(*ast.CallExpr); ok && len(dc.Args) == 0 {
+						rng = dc
+					}
+				}
+			}
+		}
+		if call, ok := rng.(*ast.CallExpr); ok && len(call.Args) == 0 {
 			if sel, ok := call.Fun.(*ast.SelectorExpr); ok {
 				if s, ok := m.collection(fr, sel.X, calleeOf(fr.ctx.Info, call), 0); ok {
 					return "size:" + s
